@@ -133,6 +133,27 @@ theorem unknown_pr_in_service_action (sas : List (String × Nat)) (sa k r c f : 
     prInDispatch sas sa = .error .valueError := by
   simp [prInDispatch, hk, hr, hc, hf, h1, h2, h3, h4, bind, Except.bind, pure, Except.pure]
 
+/-- **for all Python integers, negative ones included**: outside the four listed values the dispatch raises `ValueError` -/
+theorem unknown_pr_in_service_action_int (sas : List (String × Nat)) (sa : Int) (k r c f : Nat)
+    (hk : (sas.find? (·.1 == "READ_KEYS")).map (·.2) = some k)
+    (hr : (sas.find? (·.1 == "READ_RESERVATION")).map (·.2) = some r)
+    (hc : (sas.find? (·.1 == "REPORT_CAPABILITIES")).map (·.2) = some c)
+    (hf : (sas.find? (·.1 == "READ_FULL_STATUS")).map (·.2) = some f)
+    (h1 : sa ≠ k) (h2 : sa ≠ r) (h3 : sa ≠ c) (h4 : sa ≠ f) :
+    prInDispatchInt sas sa = .error .valueError := by
+  unfold prInDispatchInt
+  by_cases hneg : sa < 0
+  · rw [if_pos hneg]
+    simp [hk, hr, hc, hf, bind, Except.bind]
+  · rw [if_neg hneg]
+    have hnn : (0 : Int) ≤ sa := by omega
+    have e : (sa.toNat : Int) = sa := Int.toNat_of_nonneg hnn
+    apply unknown_pr_in_service_action sas sa.toNat k r c f hk hr hc hf
+    · intro h; apply h1; rw [← e, h]
+    · intro h; apply h2; rw [← e, h]
+    · intro h; apply h3; rw [← e, h]
+    · intro h; apply h4; rw [← e, h]
+
 def prInOp (set : List (String × OpCode)) : Option OpCode :=
   (set.find? (·.1 == "PERSISTENT_RESERVE_IN")).map (·.2)
 
